@@ -29,6 +29,7 @@ type HarnessCfg struct {
 	GoPolicy        string // skip | run | queue | explore
 	ContextBound    int    // explore: maximum number of preemptive context switches per path
 	FreeChoiceBound int    // explore: number of non-preemptive switch points explored nondeterministically (0 = all)
+	CRCInjective    bool   // crc32 values are equal exactly for equal inputs (else: arbitrary, only syntactically equal inputs agree)
 	GoRunMatch      string // goroutines whose function name contains this run immediately
 	SortMapStrings  bool
 	MapOrderFork    bool
